@@ -131,6 +131,13 @@ Theorem C01_compose_free_resolves : forall m cs cp b r p remote, mem_inv m -> li
 Proof. exact free_resolves. Qed.
 Print Assumptions C01_compose_free_resolves.
 
+(* conversely: an address that resolves to a live block lies inside that block *)
+Theorem C01_compose_resolve_sound : forall m p cs cp b r, mem_inv m -> p < W64 -> live_at m cs cp b r ->
+  resolve m p = Some (cs_base cs, cp_idx cp, b) ->
+  block_addr cs cp b <= p /\ p < block_addr cs cp b + bsize (cp_page cp).
+Proof. exact resolve_sound. Qed.
+Print Assumptions C01_compose_resolve_sound.
+
 (* the side condition holds for every address of a block of a normal segment ... *)
 Theorem C01_compose_resolvable_normal : forall m cs cp b r p, mem_inv m -> live_at m cs cp b r ->
   kind (fst (cs_st cs)) = SegNormal ->
